@@ -369,7 +369,10 @@ def section_history(docs, results):
                "# a comment\nFeature: f\n  Scenario: s\n    Given x\n      ```\n",
                "# language: fr\nFonctionnalité: f\n  Scénario: s\n    Soit x\n",
                "@bad tag\nFeature: f\n", "Feature: f\n  Scenario: s\n    Given t\n      | a |\n      | b | c |\n",
-               "# language: zz\nFeature: f\n", "not gherkin\n" * 12]
+               "# language: zz\nFeature: f\n", "not gherkin\n" * 12,
+               # aborted while look-ahead tokens are still queued (ragged table closed by a tag line + comment)
+               "Feature: f\n  Scenario: s\n    Given t\n      | a | b |\n      | c |\n    @tag\n    # comment\n\n    # more\n",
+               "\n".join(f"junk {i}" for i in range(10)) + "\nFeature: f\n  Scenario: s\n    Given t\n      | a | b |\n      | c |\n    @tag\n    # c\n"]
     bad, n = [], 0
     texts = [render(d, Layout())[0] for d in docs[:12]]
     for t in texts:
@@ -378,20 +381,31 @@ def section_history(docs, results):
             continue
         ref = strip_id_values(canonical(ref))
         for hist in [(a,) for a in perturb] + [(a, b) for a in perturb[:4] for b in perturb[2:6]]:
-            n += 1
-            p, m = Parser(), TokenMatcher()
-            for h in hist:
+            # the history is parsed in collecting and in stop-at-first-error mode; the document is then parsed by the
+            # same parser / matcher, and by brand-new instances (no state may survive in the class or the module)
+            for stop_mode, same_instances in ((False, True), (True, True), (True, False), (False, False)):
+                if not same_instances and len(hist) > 1:
+                    continue
+                n += 1
+                p, m = Parser(), TokenMatcher()
+                p.stop_at_first_error = stop_mode
+                for h in hist:
+                    try:
+                        p.parse(TokenScanner(h), m)
+                    except ParserError:
+                        pass
+                p.stop_at_first_error = False
+                if not same_instances:
+                    p, m = Parser(), TokenMatcher()
                 try:
-                    p.parse(TokenScanner(h), m)
-                except ParserError:
-                    pass
-            try:
-                got = strip_id_values(canonical(p.parse(TokenScanner(t), m)))
-            except ParserError as e:
-                bad.append({"history": hist, "text": t, "problem": f"rejected after the history: {e}"[:200]})
-                continue
-            if got != ref:
-                bad.append({"history": hist, "text": t, "problem": first_diff(got, ref)})
+                    got = strip_id_values(canonical(p.parse(TokenScanner(t), m)))
+                except ParserError as e:
+                    bad.append({"history": hist, "stop_mode": stop_mode, "same_instances": same_instances, "text": t,
+                                "problem": f"rejected after the history: {e}"[:200]})
+                    continue
+                if got != ref:
+                    bad.append({"history": hist, "stop_mode": stop_mode, "same_instances": same_instances, "text": t,
+                                "problem": first_diff(got, ref)})
             if len(bad) > 3:
                 break
     # interleaving: two parsers advanced alternately line by line (scanner-gated) give their solo results
@@ -485,6 +499,8 @@ def section_errors(docs, results):
             if st2 != "errors":
                 bad.append({"fault": what, "text": t2, "problem": "document accepted"})
                 continue
+            if len({e[2] for e in errs}) != len(errs):
+                bad.append({"fault": what, "text": t2, "problem": f"identical messages reported more than once: {[e[2] for e in errs][:6]}"})
             hit = [e for e in errs if e[0] == at and msg in e[2]]
             if not hit:
                 bad.append({"fault": what, "text": t2, "problem": f"no error '{msg}' at line {at}: {errs[:3]}"})
@@ -540,6 +556,29 @@ def section_errors(docs, results):
             bad.append({"fault": "row without cells", "text": t, "problem": f"{errs[:2]}"})
     except Exception as e:
         bad.append({"fault": "row without cells", "text": t, "problem": f"{type(e).__name__} escaped: {e}"})
+    # a ragged table closed by a tag line whose look-ahead meets a faulty tag line: every message once
+    n += 1
+    t = "Feature: F\n  Scenario: S\n    Given a table\n      | a | b |\n      | c |\n    @ok\n    @bad tag\n  Scenario: T\n    Given y\n"
+    st, errs = fresh_parse(t)
+    if st != "errors" or len({e[2] for e in errs}) != len(errs):
+        bad.append({"fault": "ragged table + look-ahead into a faulty tag line", "text": t,
+                    "problem": f"identical messages reported more than once / accepted: {[e[2] for e in errs][:6] if st == 'errors' else st}"})
+    # tables whose first row has no cells: the first row with a different cell count is blamed
+    for kw, pre in (("Given t", "      "), ("Examples:", "      ")):
+        for rows, blame in ((["|", "| a |"], 2), (["|", "| a |", "|"], 2), (["|", "|", "| a |"], 3), (["| a |", "|", "| b |"], 2)):
+            n += 1
+            head = "Feature: f\n  Scenario Outline: s\n    Given x\n" if kw == "Examples:" else "Feature: f\n  Scenario: s\n"
+            t = head + "    " + kw + "\n" + "".join(pre + r + "\n" for r in rows)
+            first_row_line = t.count("\n") - len(rows) + 1
+            try:
+                st, errs = fresh_parse(t)
+            except Exception as e:
+                bad.append({"fault": "zero-cell rows", "text": t, "problem": f"{type(e).__name__} escaped: {e}"})
+                continue
+            want_line = first_row_line + blame - 1
+            if st != "errors" or not any("inconsistent cell count" in e[2] and e[0] == want_line for e in errs):
+                bad.append({"fault": "ragged table with a zero-cell row", "text": t,
+                            "problem": f"expected 'inconsistent cell count' at line {want_line}, got {errs[:2] if st == 'errors' else 'accepted'}"})
     results.append(dict(name="documents::errors[injected faults: tag with whitespace, ragged table, unknown language, unexpected line; cap; stop mode]",
                         ok=not bad, size=n, detail=(bad[0]["fault"] + ": " + str(bad[0]["problem"])) if bad else None, witness=bad[:2] or None))
 
